@@ -157,7 +157,8 @@ func UnixFSDirectory(lsys linking.LinkSystem, targetSize int, opts ...Option) (D
 				if targetSize-curSize <= 1024 { // don't make tiny directories
 					continue
 				}
-				so := append(opts, WithDirname(o.dirname+"/"+name), shardThisDir(rndInt(o.randReader, 6) == 0))
+				// name is already the full path of the child (dirname + "/" + entry name)
+				so := append(opts, WithDirname(name), shardThisDir(rndInt(o.randReader, 6) == 0))
 				child, err := UnixFSDirectory(lsys, targetSize-curSize, so...)
 				if err != nil {
 					return nil, err
@@ -180,8 +181,7 @@ func UnixFSDirectory(lsys linking.LinkSystem, targetSize int, opts ...Option) (D
 				if err != nil {
 					return nil, err
 				}
-				var name string
-				entry.Path = o.dirname + "/" + name
+				entry.Path = name
 				curSize += size
 				return &entry, nil
 			}
